@@ -21,7 +21,7 @@ ANCHORS = ["decaylanguage.dec.dec:DecFileParser.expand_decay_modes", "decaylangu
            "decaylanguage.utils.utilities:DescriptorFormat.format_descriptor"]
 WORKERS = {"quick": 4, "thorough": 16}
 WTESTS = {"groups": ['parser_chains'], "tests": ['tests/dec', 'tests/decay']}
-REQUIRED = {"file-constructor:2-part-files": 3, "former-alias-name-now-a-particle-with-a-table": 5, "expand-after-a-refused-descriptor-format": 10, "product>=2x2-in-one-line": 30, "line-with>=3-multi-mode-daughters": 10, "line-without-daughters": 20, "decaying-alias-at-depth>=2": 10,
+REQUIRED = {"expand-after-a-chain-query-with-a-stable-set-that-went-wrong:abandoned": 10, "expand-after-a-chain-query-with-a-stable-set-that-went-wrong:refused": 10, "expand-after-a-chain-query-with-a-stable-set-that-went-wrong:iterable-raises": 10, "file-constructor:2-part-files": 3, "former-alias-name-now-a-particle-with-a-table": 5, "expand-after-a-refused-descriptor-format": 10, "product>=2x2-in-one-line": 30, "line-with>=3-multi-mode-daughters": 10, "line-without-daughters": 20, "decaying-alias-at-depth>=2": 10,
             "decaying-alias-top": 10, "non-decaying-alias": 20, "blockless-alias-of-a-decaying-particle-as-daughter": 20, "empty-block-daughter": 20, "same-decaying-daughter-twice": 20, "paths>=50": 20,
             "corpus-mother": 20, "expand-after-chains-with-stable-set": 20, "expand-after-editing-returned-values": 20, "two-instances-queried-alternately": 20, "two-decaying-names-of-one-particle": 5, "C10.expand.count_and_paths": 100}
 ASSUMPTIONS = ["names have balanced parentheses and no blanks; table sets are acyclic", "default descriptor format while expanding"]
